@@ -42,9 +42,10 @@ int main(int argc, char **argv) {
     { pl::BankSpec m; pl::InsSpec s; s.id = 31; m.ins[127] = s; g_base = pl::make_wopn({m}); }
     std::vector<en::Family> fams;
     { // velocity x volume x expression over 1..127/0..127/0..127 for master {0,1,64,127} x 5 models x algorithm {0,4,7}
-      static const int MASTERS[] = {0, 1, 64, 127}; static const int ALGS[] = {7, 4, 0};
-      en::Family F; F.name = "velocity_volume_expression"; F.count = 5 * 4 * 3 * 127; F.chunk = 1; F.budget_s = 120; F.describe = "5 volume models x master volume {0,1,64,127} x algorithm {7,4,0} x velocity 1..127: for each, channel volume 0..127 x expression 0..127 (16384 points): range 0..127, carriers silent at zero, modulators untouched, monotone in volume and expression; monotone in velocity and master across neighbouring cases";
-      F.run = [](uint64_t i, en::CaseOut &o) { int model = 1 + (int)(i % 5), mi = (int)((i / 5) % 4), alg = ALGS[(i / 20) % 3], vel = 1 + (int)(i / 60);
+      static const int MASTERS_Q[] = {0, 1, 64, 127}, MASTERS_T[] = {0, 1, 2, 8, 16, 32, 48, 64, 80, 96, 112, 126, 127}; static const int ALGS_Q[] = {7, 4, 0}, ALGS_T[] = {7, 6, 5, 4, 3, 2, 1, 0};
+      static const int *MASTERS, *ALGS; static int NM, NAL; MASTERS = thorough ? MASTERS_T : MASTERS_Q; ALGS = thorough ? ALGS_T : ALGS_Q; NM = thorough ? 13 : 4; NAL = thorough ? 8 : 3;
+      en::Family F; F.name = "velocity_volume_expression"; F.count = (uint64_t)5 * NM * NAL * 127; F.chunk = 1; F.budget_s = 120; F.describe = std::string("5 volume models x master volume ") + (thorough ? "{0,1,2,8,16,32,48,64,80,96,112,126,127} x algorithm 0..7" : "{0,1,64,127} x algorithm {7,4,0}") + " x velocity 1..127: for each, channel volume 0..127 x expression 0..127 (16384 points): range 0..127, carriers silent at zero, modulators untouched, monotone in volume and expression; monotone in velocity and master across neighbouring cases";
+      F.run = [](uint64_t i, en::CaseOut &o) { int model = 1 + (int)(i % 5), mi = (int)((i / 5) % NM), alg = ALGS[(i / 5 / NM) % NAL], vel = 1 + (int)(i / 5 / NM / NAL);
         std::string ctx = std::string(" [model ") + MODEL[model] + ", master " + std::to_string(MASTERS[mi]) + ", algorithm " + std::to_string(alg) + ", velocity " + std::to_string(vel) + "]";
         // two instances so that the velocity axis (vel vs vel-1) and the master axis (this vs previous master) can be compared point by point
         pl::Instance I, P, M; int patch_level = 20;
@@ -87,6 +88,24 @@ int main(int argc, char **argv) {
         if(!range_ok(I, o, ctx)) return;
         o.units = 16 * 128; if(i % 997 == 0) o.sample = ctx; o.nontrivial = true; };
       fams.push_back(F); }
-    (void)thorough;
+    { // controls changed while the note sounds: the level written by the refresh must be the level a fresh note gets under the same settings
+      static const int VELS_Q[] = {1, 64, 127}, VELS_T[] = {1, 16, 32, 64, 100, 126, 127}; static const int ALGS_Q[] = {7, 4, 0};
+      static int NV, NA; NV = thorough ? 7 : 3; NA = thorough ? 8 : 3; static bool TH; TH = thorough;
+      en::Family F; F.name = "changes_on_held_note"; F.count = (uint64_t)5 * NA * NV * 3; F.chunk = 1; F.budget_s = 120; F.describe = std::string("5 volume models x algorithm ") + (thorough ? "0..7" : "{7,4,0}") + " x velocity " + (thorough ? "{1,16,32,64,100,126,127}" : "{1,64,127}") + " x control {SysEx master volume, CC7, CC11}: with the note held, every ordered pair (previous value, new value) in 0..127 x 0..127 is sent; after the second message the total levels must equal those of a fresh note started under the new value (16384 pairs each), and stay within 0..127";
+      F.run = [](uint64_t i, en::CaseOut &o) { int model = 1 + (int)(i % 5), alg = TH ? (int)((i / 5) % NA) : ALGS_Q[(i / 5) % NA], vel = (TH ? VELS_T : VELS_Q)[(i / 5 / NA) % NV], ctl = (int)(i / 5 / NA / NV);
+        static const char *CN[] = {"master volume", "channel volume (CC7)", "expression (CC11)"};
+        std::string ctx = std::string(" [model ") + MODEL[model] + ", algorithm " + std::to_string(alg) + ", velocity " + std::to_string(vel) + ", " + CN[ctl] + " changed on a held note]"; char b[300];
+        auto apply = [&](OPN2_MIDIPlayer *d, int v) { if(ctl == 0) master(d, v); else opn2_rt_controllerChange(d, 0, ctl == 1 ? 7 : 11, (OPN2_UInt8)v); };
+        // reference: the value in force before the note starts
+        static uint8_t ref[128][4];
+        for(int v = 0; v < 128; v++) { pl::Instance R; if(!setup(R, model, alg, 20, 0, 0)) { o.fail("C11/harness", "setup"); return; } apply(R.dev, v); opn2_rt_noteOn(R.dev, 0, 60, (OPN2_UInt8)vel); read_tl(R, ref[v]); }
+        pl::Instance H; if(!setup(H, model, alg, 20, 0, 0)) { o.fail("C11/harness", "setup"); return; }
+        opn2_rt_noteOn(H.dev, 0, 60, (OPN2_UInt8)vel);
+        for(int v1 = 0; v1 < 128; v1++) for(int v2 = 0; v2 < 128; v2++) { apply(H.dev, v1); apply(H.dev, v2); uint8_t tl[4]; read_tl(H, tl);
+            if(memcmp(tl, ref[v2], 4)) { snprintf(b, sizeof b, "%s %d -> %d on a sounding note: total levels %u %u %u %u, a note started under %d gets %u %u %u %u", CN[ctl], v1, v2, tl[0], tl[1], tl[2], tl[3], v2, ref[v2][0], ref[v2][1], ref[v2][2], ref[v2][3]);
+                o.fail(std::string("C11/held-note-refresh/") + (ctl == 0 ? "master" : ctl == 1 ? "volume" : "expression"), b + ctx); return; } }
+        if(!range_ok(H, o, ctx)) return;
+        o.units = 16384; if(i % 7 == 0) o.sample = ctx; o.nontrivial = true; };
+      fams.push_back(F); }
     return en::run_main(argc, argv, "C11", fams, TAGS, "non-trivial: the whole sub-grid was swept and every total-level write compared");
 }
